@@ -82,3 +82,13 @@ Theorem C07_source_ValidateEncodedResponse_is_the_model : forall parse dsig decr
   = PVal (norm_res (entry parse enc (validate_response_tree dsig decrypt cfg now))).
 Proof. exact G_ValidateEncodedResponse_is_model. Qed.
 Print Assumptions C07_source_ValidateEncodedResponse_is_the_model.
+
+(* source tie: the body of getDecryptCert (decode_response.go) as translated from /repo on this run IS the model the
+   certificate-window theorems above are about, for every key configuration, clock, ValidateEncryptionCert setting and
+   behaviour of the X.509 parser; it never panics *)
+From V Require Import GenPreludeK GenKeys P_GenKeysUnit.
+Theorem C07_source_getDecryptCert_is_the_model : forall parse_cert c now validate,
+  G_getDecryptCert parse_cert c now validate
+  = PVal (match get_decrypt_cert parse_cert validate now c with Ok dc => Ok (Some dc) | Err e => Err e end).
+Proof. exact G_getDecryptCert_is_model. Qed.
+Print Assumptions C07_source_getDecryptCert_is_the_model.
